@@ -933,6 +933,24 @@ def _degenerate(st, r):
                     i += 1
                 if st.eq(off, hi):
                     return mk_concat(acc)
+            # a window that starts and / or ends inside a part: whole parts in the middle, windows of the two ends
+            parts = list(r[1][1:])
+            offs = [Poly.const(0)]
+            for p_ in parts:
+                offs.append(offs[-1] + t_len(p_))
+            i0 = next((i for i in range(len(parts)) if st.ge(lo, offs[i]) and st.ge(offs[i + 1], lo)), None)
+            j0 = next((j for j in range(len(parts) - 1, -1, -1) if st.ge(hi, offs[j]) and st.ge(offs[j + 1], hi)), None)
+            if i0 is not None and j0 is not None and i0 <= j0 and (i0, j0) != (0, len(parts) - 1) or \
+                    (i0 is not None and j0 is not None and i0 < j0):
+                if i0 == j0:
+                    return ("slice", parts[i0], lo - offs[i0], hi - offs[i0])
+                acc = []
+                first = ("slice", parts[i0], lo - offs[i0], t_len(parts[i0]))
+                acc.append(parts[i0] if st.eq(lo, offs[i0]) else first)
+                acc.extend(parts[i0 + 1:j0])
+                last = ("slice", parts[j0], Poly.const(0), hi - offs[j0])
+                acc.append(parts[j0] if st.eq(hi, offs[j0 + 1]) else last)
+                return mk_concat([a_ for a_ in acc if not _known_empty(st, a_)])
             # not a run of whole parts: the normal form of composing with the injection arange(lo, hi)
             return mk_gather(st, r[1], ("arange", lo, hi))
         if op == "repeat" and r[1][0] == "fill" and st.eq(as_poly(r[1][1]), 1):
